@@ -1,6 +1,22 @@
-"""Extract from mistral/services/periodic.py:advance_cron_trigger how the trigger row is addressed when it is
-advanced: by NAME (`t.name`, resolved among the rows visible to the trigger's project) or by ID (`t.id`).
-Writes Gen/CronCfg.v (fail closed: both database calls must use the same, recognised, identifier)."""
+"""Extract into Gen/CronCfg.v what the C17 model takes from the source text (fail closed: anything outside the
+shapes recognised here raises TranslateError):
+
+  lookup_by_name           mistral/services/periodic.py:advance_cron_trigger addresses the trigger row by NAME (`t.name`,
+                           resolved among the rows visible to the trigger's project) or by ID (`t.id`); both database
+                           calls must use the same identifier
+  delete_reports_rowcount  mistral/db/v2/sqlalchemy/api.py:delete_cron_trigger is a compare-and-swap: SELECT the row,
+                           execute `DELETE FROM cron_triggers_v2 WHERE id = <selected row>.id` and RETURN THE ROW COUNT
+                           of that statement (true).  false = the recognised broken shape: ORM `session.delete(row)`
+                           and a constant positive result (the loser of a race between SELECT and DELETE reports 1)
+  update_reports_match     ...:update_cron_trigger with a query_filter goes through the conditional UPDATE
+                           (update_on_match on id + query_filter) and reports 0 when no row matched (NoRowsMatched)
+                           (true).  false = the NoRowsMatched handler returns a positive constant count
+
+and check (no flag: recognised or TranslateError) that the reported count reaches the decision to start unchanged:
+  mistral/services/triggers.py:delete_cron_trigger returns the value of db_api.delete_cron_trigger(identifier) as is;
+  periodic.advance_cron_trigger starts from 0, takes the count of either call and returns `count > 0`;
+  periodic.process_cron_triggers_v2 calls start_workflow only under `if <result of advance_cron_trigger>:`.
+"""
 import ast
 import os
 
@@ -8,16 +24,252 @@ from harness.core import TranslateError
 
 NAME = 'CronCfg'
 SRC = 'mistral/services/periodic.py'
+SRC_TRIGGERS = 'mistral/services/triggers.py'
+SRC_DB = 'mistral/db/v2/sqlalchemy/api.py'
 
 
-def translate(repo):
-    tree = ast.parse(open(os.path.join(repo, SRC)).read())
-    fns = [n for n in tree.body if isinstance(n, ast.FunctionDef) and n.name == 'advance_cron_trigger']
-    if len(fns) != 1 or len(fns[0].args.args) != 1:
+def _parse(repo, rel):
+    try:
+        return ast.parse(open(os.path.join(repo, rel)).read())
+    except (OSError, SyntaxError) as e:
+        raise TranslateError('%s: %s' % (rel, e))
+
+
+def _fn(tree, rel, name):
+    fns = [n for n in tree.body if isinstance(n, ast.FunctionDef) and n.name == name]
+    if len(fns) != 1:
+        raise TranslateError('%s: expected exactly one top-level def %s' % (rel, name))
+    return fns[0]
+
+
+def _body(fn):
+    """Statements of a function without its docstring."""
+    b = list(fn.body)
+    if b and isinstance(b[0], ast.Expr) and isinstance(b[0].value, ast.Constant) and isinstance(b[0].value.value, str):
+        b = b[1:]
+    return b
+
+
+def _dotted(node):
+    """'a.b.c' for a Name / Attribute chain, else None."""
+    parts = []
+    while isinstance(node, ast.Attribute):
+        parts.append(node.attr)
+        node = node.value
+    if isinstance(node, ast.Name):
+        parts.append(node.id)
+        return '.'.join(reversed(parts))
+    return None
+
+
+def _is_call(node, dotted, nargs=None, kws=None):
+    if not (isinstance(node, ast.Call) and _dotted(node.func) == dotted):
+        return False
+    if nargs is not None and len(node.args) != nargs:
+        return False
+    if kws is not None and sorted(k.arg or '**' for k in node.keywords) != sorted(kws):
+        return False
+    return True
+
+
+def _assign_name(stmt):
+    if isinstance(stmt, ast.Assign) and len(stmt.targets) == 1 and isinstance(stmt.targets[0], ast.Name):
+        return stmt.targets[0].id
+    return None
+
+
+def _stores(fn, name):
+    return sum(1 for n in ast.walk(fn) if isinstance(n, ast.Name) and n.id == name and isinstance(n.ctx, (ast.Store, ast.Del)))
+
+
+def _session_aware(fn, what):
+    if not (len(fn.decorator_list) == 1 and _is_call(fn.decorator_list[0], 'b.session_aware', 0, [])):
+        raise TranslateError('%s: expected the single decorator @b.session_aware()' % what)
+
+
+def _selected_row(fn, what):
+    """`row = get_cron_trigger(identifier)` + `m_dbutils.check_db_obj_access(row)` at the top; returns (row, rest)."""
+    b = _body(fn)
+    ident = fn.args.args[0].arg if fn.args.args else None
+    if len(b) < 2 or _assign_name(b[0]) is None or not _is_call(b[0].value, 'get_cron_trigger', 1, []) \
+            or _dotted(b[0].value.args[0]) != ident:
+        raise TranslateError('%s: does not start with `row = get_cron_trigger(%s)`' % (what, ident))
+    row = _assign_name(b[0])
+    if not (isinstance(b[1], ast.Expr) and _is_call(b[1].value, 'm_dbutils.check_db_obj_access', 1, [])
+            and _dotted(b[1].value.args[0]) == row):
+        raise TranslateError('%s: no m_dbutils.check_db_obj_access(%s) after the SELECT' % (what, row))
+    return row, b[2:]
+
+
+def delete_shape(tree):
+    what = SRC_DB + ':delete_cron_trigger'
+    fn = _fn(tree, SRC_DB, 'delete_cron_trigger')
+    _session_aware(fn, what)
+    if [a.arg for a in fn.args.args] != ['identifier', 'session']:
+        raise TranslateError('%s: unexpected signature' % what)
+    row, rest = _selected_row(fn, what)
+    # compare-and-swap shape
+    if len(rest) == 3:
+        tbl, res = _assign_name(rest[0]), _assign_name(rest[1])
+        ok = tbl is not None and _dotted(rest[0].value) == 'models.CronTrigger.__table__' and res is not None
+        ex = rest[1].value if ok else None
+        ok = ok and _is_call(ex, 'session.execute', 1, [])
+        if ok:
+            st = ex.args[0]
+            # <tbl>.delete().where(<tbl>.c.id == <row>.id)
+            ok = isinstance(st, ast.Call) and isinstance(st.func, ast.Attribute) and st.func.attr == 'where' \
+                and _is_call(st.func.value, tbl + '.delete', 0, []) and len(st.args) == 1 and not st.keywords
+            if ok:
+                c = st.args[0]
+                ok = isinstance(c, ast.Compare) and len(c.ops) == 1 and isinstance(c.ops[0], ast.Eq) \
+                    and sorted([_dotted(c.left) or '', _dotted(c.comparators[0]) or '']) == sorted([tbl + '.c.id', row + '.id'])
+        ok = ok and isinstance(rest[2], ast.Return) and _dotted(rest[2].value) == res + '.rowcount'
+        if ok and _stores(fn, row) == 1 and _stores(fn, tbl) == 1 and _stores(fn, res) == 1:
+            return True
+    # the recognised broken shape: ORM delete of the selected object, constant result
+    if len(rest) == 2 and isinstance(rest[0], ast.Expr) and _is_call(rest[0].value, 'session.delete', 1, []) \
+            and _dotted(rest[0].value.args[0]) == row and isinstance(rest[1], ast.Return) \
+            and isinstance(rest[1].value, ast.Constant) and type(rest[1].value.value) is int and rest[1].value.value >= 1:
+        return False
+    raise TranslateError('%s: neither `res = session.execute(table.delete().where(table.c.id == %s.id)); return res.rowcount` '
+                         'nor a recognised variant' % (what, row))
+
+
+def update_shape(tree):
+    what = SRC_DB + ':update_cron_trigger'
+    fn = _fn(tree, SRC_DB, 'update_cron_trigger')
+    _session_aware(fn, what)
+    if [a.arg for a in fn.args.args] != ['identifier', 'values', 'session', 'query_filter']:
+        raise TranslateError('%s: unexpected signature' % what)
+    row, rest = _selected_row(fn, what)
+    if not (len(rest) == 1 and isinstance(rest[0], ast.If) and _dotted(rest[0].test) == 'query_filter'):
+        raise TranslateError('%s: expected a single `if query_filter:` after the SELECT' % what)
+    body = rest[0].body
+    if not (len(body) == 1 and isinstance(body[0], ast.Try) and not body[0].orelse and not body[0].finalbody
+            and len(body[0].handlers) == 1):
+        raise TranslateError('%s: the query_filter branch is not one try/except' % what)
+    tr = body[0]
+    b = tr.body
+    ok = len(b) == 4
+    if ok:
+        spec, qry, upd = _assign_name(b[0]), _assign_name(b[1]), _assign_name(b[2])
+        ok = None not in (spec, qry, upd)
+        # specimen = models.CronTrigger(id=<row>.id, **query_filter)
+        ok = ok and _is_call(b[0].value, 'models.CronTrigger', 0, ['id', '**'])
+        if ok:
+            kw = {k.arg or '**': k.value for k in b[0].value.keywords}
+            ok = _dotted(kw['id']) == row + '.id' and _dotted(kw['**']) == 'query_filter'
+        # query = b.model_query(models.CronTrigger)
+        ok = ok and _is_call(b[1].value, 'b.model_query', 1, []) and _dotted(b[1].value.args[0]) == 'models.CronTrigger'
+        # <row'> = query.update_on_match(specimen=specimen, surrogate_key='id', values=values)
+        ok = ok and _is_call(b[2].value, qry + '.update_on_match', 0, ['specimen', 'surrogate_key', 'values'])
+        if ok:
+            kw = {k.arg: k.value for k in b[2].value.keywords}
+            ok = _dotted(kw['specimen']) == spec and isinstance(kw['surrogate_key'], ast.Constant) \
+                and kw['surrogate_key'].value == 'id' and _dotted(kw['values']) == 'values'
+        # return <row'>, 1
+        ok = ok and isinstance(b[3], ast.Return) and isinstance(b[3].value, ast.Tuple) and len(b[3].value.elts) == 2 \
+            and _dotted(b[3].value.elts[0]) == upd and isinstance(b[3].value.elts[1], ast.Constant) \
+            and b[3].value.elts[1].value == 1 and type(b[3].value.elts[1].value) is int
+    if not ok:
+        raise TranslateError('%s: the query_filter branch is not specimen / model_query / update_on_match(specimen, '
+                             "surrogate_key='id', values=values) / return row, 1" % what)
+    h = tr.handlers[0]
+    if not (h.type is not None and (_dotted(h.type) or '').split('.')[-1] == 'NoRowsMatched'
+            and (_dotted(h.type) or '').startswith('oslo_sqlalchemy.')):
+        raise TranslateError('%s: the handler does not catch oslo.db NoRowsMatched only' % what)
+    hb = list(h.body)
+    while hb and isinstance(hb[0], ast.Expr) and isinstance(hb[0].value, ast.Call) and (_dotted(hb[0].value.func) or '').startswith('LOG.'):
+        hb = hb[1:]
+    if not (len(hb) == 1 and isinstance(hb[0], ast.Return) and isinstance(hb[0].value, ast.Tuple) and len(hb[0].value.elts) == 2
+            and isinstance(hb[0].value.elts[1], ast.Constant) and type(hb[0].value.elts[1].value) is int
+            and hb[0].value.elts[1].value >= 0):
+        raise TranslateError('%s: the NoRowsMatched handler does not end in `return row, <constant count>`' % what)
+    return hb[0].value.elts[1].value == 0
+
+
+def check_count_chain(per, trg):
+    # triggers.delete_cron_trigger: `m = db_api.delete_cron_trigger(identifier)` ... `return m`
+    what = SRC_TRIGGERS + ':delete_cron_trigger'
+    fn = _fn(trg, SRC_TRIGGERS, 'delete_cron_trigger')
+    ident = fn.args.args[0].arg if fn.args.args else None
+    calls = [n for n in ast.walk(fn) if isinstance(n, ast.Assign) and _is_call(n.value, 'db_api.delete_cron_trigger')]
+    rets = [n for n in ast.walk(fn) if isinstance(n, ast.Return)]
+    if not (len(calls) == 1 and calls[0] in fn.body and _assign_name(calls[0]) and len(calls[0].value.args) == 1
+            and not calls[0].value.keywords and _dotted(calls[0].value.args[0]) == ident):
+        raise TranslateError('%s: expected one top-level `m = db_api.delete_cron_trigger(%s)`' % (what, ident))
+    m = _assign_name(calls[0])
+    if not (len(rets) == 1 and rets[0] is fn.body[-1] and _dotted(rets[0].value) == m and _stores(fn, m) == 1
+            and not any(isinstance(n, (ast.AugAssign, ast.Global, ast.Nonlocal)) for n in ast.walk(fn))):
+        raise TranslateError('%s: the row count of db_api.delete_cron_trigger is not returned unchanged' % what)
+    # periodic.advance_cron_trigger
+    what = SRC + ':advance_cron_trigger'
+    fn = _fn(per, SRC, 'advance_cron_trigger')
+    t = fn.args.args[0].arg
+    b = _body(fn)
+    if not (_assign_name(b[0]) and isinstance(b[0].value, ast.Constant) and b[0].value.value == 0 and type(b[0].value.value) is int):
+        raise TranslateError('%s: does not start with `modified_count = 0`' % what)
+    m = _assign_name(b[0])
+    last = b[-1]
+    if not (isinstance(last, ast.Return) and isinstance(last.value, ast.Compare) and _dotted(last.value.left) == m
+            and len(last.value.ops) == 1 and isinstance(last.value.ops[0], ast.Gt)
+            and isinstance(last.value.comparators[0], ast.Constant) and last.value.comparators[0].value == 0
+            and sum(1 for n in ast.walk(fn) if isinstance(n, ast.Return)) == 1):
+        raise TranslateError('%s: does not end with the single `return %s > 0`' % (what, m))
+    srcs = []
+    for n in ast.walk(fn):
+        if isinstance(n, (ast.AugAssign, ast.AnnAssign)) and _dotted(n.target) == m:
+            raise TranslateError('%s: %s is modified in place' % (what, m))
+        if isinstance(n, ast.Assign) and n is not b[0]:
+            for tg in n.targets:
+                if isinstance(tg, ast.Name) and tg.id == m:
+                    if not _is_call(n.value, 'triggers.delete_cron_trigger'):
+                        raise TranslateError('%s: %s assigned from something else than triggers.delete_cron_trigger' % (what, m))
+                    srcs.append('delete')
+                elif isinstance(tg, ast.Tuple) and any(isinstance(e, ast.Name) and e.id == m for e in tg.elts):
+                    if not (len(tg.elts) == 2 and isinstance(tg.elts[1], ast.Name) and tg.elts[1].id == m
+                            and _is_call(n.value, 'db_api_v2.update_cron_trigger')):
+                        raise TranslateError('%s: %s is not the second result of db_api_v2.update_cron_trigger' % (what, m))
+                    qf = [k.value for k in n.value.keywords if k.arg == 'query_filter']
+                    if not (len(qf) == 1 and isinstance(qf[0], ast.Dict) and len(qf[0].keys) == 1
+                            and isinstance(qf[0].keys[0], ast.Constant) and qf[0].keys[0].value == 'next_execution_time'
+                            and _dotted(qf[0].values[0]) == t + '.next_execution_time'):
+                        raise TranslateError("%s: update_cron_trigger is not called with query_filter={'next_execution_time': "
+                                             '%s.next_execution_time}' % (what, t))
+                    srcs.append('update')
+    if sorted(srcs) != ['delete', 'update'] or _stores(fn, m) != 3:
+        raise TranslateError('%s: %s must be assigned exactly by the delete call and by the update call (found %r)' % (what, m, srcs))
+    # periodic.process_cron_triggers_v2: start_workflow only under `if <modified>:`
+    what = SRC + ':process_cron_triggers_v2'
+    fn = _fn(per, SRC, 'process_cron_triggers_v2')
+    asg = [n for n in ast.walk(fn) if isinstance(n, ast.Assign) and _is_call(n.value, 'advance_cron_trigger', 1, [])]
+    if not (len(asg) == 1 and _assign_name(asg[0]) and _stores(fn, _assign_name(asg[0])) == 1):
+        raise TranslateError('%s: expected one `modified = advance_cron_trigger(trigger)`' % what)
+    mod = _assign_name(asg[0])
+    guarded = [n for n in ast.walk(fn) if isinstance(n, ast.If) and _dotted(n.test) == mod]
+    if len(guarded) != 1:
+        raise TranslateError('%s: expected one `if %s:`' % (what, mod))
+
+    def starts(nodes):
+        return sum(1 for x in nodes for n in ast.walk(x) if isinstance(n, ast.Attribute) and n.attr == 'start_workflow')
+    if not (starts(guarded[0].body) == 1 and starts([fn]) == 1):
+        raise TranslateError('%s: start_workflow must be called once, under `if %s:`' % (what, mod))
+    # ... and the `if` follows the assignment in the same block
+    for n in ast.walk(fn):
+        for blk in ('body', 'orelse', 'finalbody'):
+            seq = getattr(n, blk, None)
+            if isinstance(seq, list) and asg[0] in seq:
+                if guarded[0] not in seq or seq.index(guarded[0]) < seq.index(asg[0]):
+                    raise TranslateError('%s: `if %s:` does not follow the advance in the same block' % (what, mod))
+
+
+def lookup_mode(tree):
+    fn = _fn(tree, SRC, 'advance_cron_trigger')
+    if len(fn.args.args) != 1:
         raise TranslateError('expected exactly one advance_cron_trigger(t)')
-    arg = fns[0].args.args[0].arg
+    arg = fn.args.args[0].arg
     modes = {}
-    for node in ast.walk(fns[0]):
+    for node in ast.walk(fn):
         if isinstance(node, ast.Call) and isinstance(node.func, ast.Attribute) and \
                 node.func.attr in ('delete_cron_trigger', 'update_cron_trigger'):
             if node.func.attr in modes:
@@ -33,9 +285,23 @@ def translate(repo):
         raise TranslateError('advance_cron_trigger must call delete_cron_trigger and update_cron_trigger, found %r' % sorted(modes))
     if len(set(modes.values())) != 1:
         raise TranslateError('delete / update address the row differently: %r' % modes)
-    by_name = modes['update_cron_trigger'] == 'name'
+    return modes['update_cron_trigger'] == 'name'
+
+
+def translate(repo):
+    per, trg, dbt = _parse(repo, SRC), _parse(repo, SRC_TRIGGERS), _parse(repo, SRC_DB)
+    by_name = lookup_mode(per)
+    check_count_chain(per, trg)
+    drc = delete_shape(dbt)
+    urm = update_shape(dbt)
+    b = {True: 'true', False: 'false'}
     return '\n'.join([
-        '(* GENERATED from %s by translate/tr_croncfg.py on every run. Do not edit. *)' % SRC,
+        '(* GENERATED from %s, %s, %s by translate/tr_croncfg.py on every run. Do not edit. *)' % (SRC, SRC_TRIGGERS, SRC_DB),
         '(* advance_cron_trigger addresses the row by %s *)' % ('t.name' if by_name else 't.id'),
-        'Definition lookup_by_name : bool := %s.' % ('true' if by_name else 'false'),
+        'Definition lookup_by_name : bool := %s.' % b[by_name],
+        '(* delete_cron_trigger: %s *)' % ('returns the row count of DELETE ... WHERE id = <selected row>' if drc else
+                                           'ORM delete of the selected object, constant result'),
+        'Definition delete_reports_rowcount : bool := %s.' % b[drc],
+        '(* update_cron_trigger(query_filter): conditional UPDATE, NoRowsMatched reported as %s *)' % ('0' if urm else 'a positive count'),
+        'Definition update_reports_match : bool := %s.' % b[urm],
         ''])
